@@ -542,8 +542,11 @@ end package;
         c("boolean", "%s'ascending" % ty)
         c("string", "%s'image(%s)" % (ty, val))
         c(b, "%s'value(%s)" % (ty, img))
-        # (T'base'left ... is valid VHDL but the analyser has no 'base attribute at all: "Unknown attribute 'base"; reported
-        #  to the coordinator as an observation, not exercised here)
+        # T'base as the prefix of another attribute (F68, fixed a834e65)
+        c(b, "%s'base'%s" % (ty, r.choice(["left", "right", "high", "low"])))
+        c("string", "%s'base'image(%s)" % (ty, val))
+        if ty not in ("volt_t", "real"):
+            c(b, "%s'base'val(%d)" % (ty, 1 if b in ("color_t", "boolean", "bit") else 25 if b == "character" else 3))
         if ty not in ("volt_t", "real"):
             # discrete and PHYSICAL types
             c("integer", "%s'pos(%s)" % (ty, val))
@@ -570,8 +573,11 @@ end package;
     for a in ("simple_name", "instance_name", "path_name"):
         c("string", "k1'%s" % a)
         c("string", "s'%s" % a)
+    c("integer", "byte_t'base'length")
     if v08:
-        L += ["  subtype el_t is byte_t'element;", "  signal like_bv : bv'subtype;"]
+        L += ["  subtype el_t is byte_t'element;", "  signal like_bv : bv'subtype;",
+              "  constant kb1 : bit := byte_t'base'element'base'low;", "  constant kb2 : bit := bv'subtype'element'base'high;",
+              "  constant kb3 : integer := bv'subtype'base'length;"]
     L += ["begin", "  pr : process (clk)", "    variable acc : integer := 0;", "    variable b : boolean;", "    variable tm : time;", "    variable lv : bit;"]
     L += ["  begin",
           "    for i in byte_t'range loop acc := acc + i; end loop;", "    for i in bv'reverse_range loop acc := acc + i; end loop;",
